@@ -681,7 +681,6 @@ def encode_frame(rec):
     for k, i in enumerate(prog):
         ptxt.append(instr([rid(r) for r in i['uses']], [rid(r) for r in i['defs']], [rid(r) for r in i['clob']],
                           i['move'], sc[k] if i['jumps'] else []))
-    live = [zl(sorted(rid(r) for r in lout[k])) for k in range(n)]
     ctbl = []
     for k, (r, c0, p0) in rec['regs'].items():
         if k in color:
@@ -692,7 +691,7 @@ def encode_frame(rec):
         qs = sorted(phys[q] for q in alias.get(p, ()) if q in phys and q != p)
         if qs:
             atbl.append('(%d,%s)' % (pid, zl(qs)))
-    removed = ['false' if i['id'] in after_ids else 'true' for i in prog]
+    removed = ['%d%%nat' % k for k, i in enumerate(prog) if i['id'] not in after_ids]
     physl = sorted(set(rid(k) for k in rec['regs'] if k[0] == 'P'))
     pre = ['(%d,%d)' % (rid(k), phys[p0]) for k, p0 in rec['pre'].items()]
     atxt = []
@@ -700,10 +699,10 @@ def encode_frame(rec):
     for i, row in zip(rec['after'], rec['after_phys']):
         atxt.append(instr([phys[p] for p in row['uses']], [phys[p] for p in row['defs']], [phys[p] for p in row['clob']],
                           i['move'], [after_ids.get(j, na) for j in i['jumps']]))
-    term = 'check_frame [%s] [%s] [%s] [%s] %s [%s] [%s] [%s]' % (
-        ';\n'.join(ptxt), ';'.join(live), ';'.join('(%d,%d)' % cp for cp in ctbl), ';'.join(atbl),
+    term = 'check_frame [%s] 60%%nat [%s] [%s] %s [%s] [%s] [%s]' % (
+        ';\n'.join(ptxt), ';'.join('(%d,%d)' % cp for cp in ctbl), ';'.join(atbl),
         zl(physl), ';'.join(removed), ';'.join(pre), ';\n'.join(atxt))
-    stats = {'instructions': n, 'vregs': len(vid), 'phys': len(phys), 'removed': removed.count('true'),
+    stats = {'instructions': n, 'vregs': len(vid), 'phys': len(phys), 'removed': len(removed),
              'maxlive': max([len(x) for x in lout] + [0])}
     return term, stats
 
@@ -840,7 +839,7 @@ def run(ctx):
     cap.install()
     t0 = time.time()
     try:
-        budget = 110 if ctx.quick() else 1500
+        budget = 90 if ctx.quick() else 1500
         targets = QUICK_TARGETS if ctx.quick() else THOROUGH_TARGETS
         collect_frames(ctx, cap, budget, targets)
     finally:
